@@ -72,7 +72,9 @@ def atomics_map(R, P, rule="ATOMIC-MAP"):
         if name.endswith("_explicit"):
             n += 1
             ats = [x for b in f.blocks.values() for e in b.elems for x in f.walk(e) if x["k"] == "atomic"]
-            ok = len(ats) == 1 and ats[0].get("name") == BUILTIN[op]
+            # (the `_n` builtins and their generic forms, which take the value through a pointer, are the same operation)
+            generic = BUILTIN[op][:-2] if BUILTIN[op].endswith("_n") else BUILTIN[op]
+            ok = len(ats) == 1 and ats[0].get("name") in (BUILTIN[op], generic)
             det = "%s" % [a.get("name") for a in ats]
             if ok:
                 a = ats[0]["a"]
@@ -85,7 +87,7 @@ def atomics_map(R, P, rule="ATOMIC-MAP"):
                 ok = used == oparams and f.params[0]["n"] in obj
                 det = "%s on %s with orders %s (parameters %s)" % (ats[0].get("name"), obj, used, oparams)
                 if ok and op in ("store", "exchange", "fetch_add", "fetch_sub", "fetch_or", "fetch_and", "fetch_xor"):
-                    ok = f.show(RU.uncast(f, f.d(a[2]))) == f.params[1]["n"]
+                    ok = f.show(RU.uncast(f, f.d(a[2]))).lstrip("&") == f.params[1]["n"]
                     det += ", operand %s" % f.show(f.d(a[2]))
                 if ok and op == "compare_exchange":
                     ok = f.show(RU.uncast(f, f.d(a[2]))) == f.params[1]["n"] and f.show(RU.uncast(f, f.d(a[4]))) == f.params[2]["n"] and f.is_const(f.d(a[5])) == 0
